@@ -12,6 +12,7 @@ func init() {
 	vfRegister("VF_C07_own_tag", VF_C07_own_tag)
 	vfRegister("VF_C07_two_decorators", VF_C07_two_decorators)
 	vfRegister("VF_C07_two_refs", VF_C07_two_refs)
+	vfRegister("VF_C07_same_names", VF_C07_same_names)
 	vfRegister("VF_C05_two_decorators", VF_C05_two_decorators)
 	vfRegister("VF_C05_scopes", VF_C05_scopes)
 }
@@ -280,6 +281,36 @@ func VF_C07_own_tag() {
 		}
 	}
 	vfReach("C07_own_tag")
+}
+
+// VF_C07_same_names: a service and a parameter whose names may coincide, each
+// with a reference slot of its own kind: the report shows a cycle through every
+// element lying on one, of either kind (a cycle among parameters is not the
+// cycle among services of the same names).
+func VF_C07_same_names() {
+	g := vfMakeGraphS(vfShape{nsvc: 2, tags: []bool{false, false}, refS: []bool{true, true}, refT: []bool{false, false},
+		refP: []bool{false, false}, params: 2})
+	err := ValidateCircularDeps(g.o)
+	r := g.closure()
+	cyclic := false
+	for i := range r {
+		cyclic = vfOr(cyclic, r[i][i])
+	}
+	vfAssert((err != nil) == cyclic, "rejected for circular dependencies iff the dependency relation is cyclic (services and parameters)")
+	if err != nil {
+		msg := err.Error()
+		for i, n := range g.svc {
+			if r[i][i] {
+				vfAssert(strings.Contains(msg, "@"+n), "the report shows a cycle through each service lying on one")
+			}
+		}
+		for i, n := range g.par {
+			if r[len(g.svc)+i][len(g.svc)+i] {
+				vfAssert(strings.Contains(msg, "%"+n+"%"), "the report shows a cycle through each parameter lying on one")
+			}
+		}
+	}
+	vfReach("C07_same_names")
 }
 
 // VF_C07_two_refs: two @service references per service, each of which may be
